@@ -256,6 +256,7 @@ def run(ctx: Ctx):
             # the warning itself: model `warns` against what was announced
             wlits.append("{| w_spec := %s; w_frame := %s; w_warned := %s |}" % (slit, frame2.coq(), "true" if mismatch_warned else "false"))
             wdescr.append({"train": frame.describe(), "terms": terms, "followup": frame2.describe(), "events": events, "announced": mismatch_warned})
+            ctx.count("warnings", f"announced={mismatch_warned}")
         rp = {"train": frame.describe(), "terms": terms, "ensure_full_rank": efr, "followup": frame2.describe(), "events": events, "implementation": kind}
         descr.append(rp)
         ctx.count("pairs", "outcome=" + kind.split(":")[0])
